@@ -249,6 +249,37 @@ def run(M, rep, tier, only=None):
                           op, sorted(show(x) for x in got), sorted(show(x) for x in tested)) if got else "required mechanism not found",
                       site=init6.file + ":%d" % init6.node.lineno)
 
+    # ---------------- R7: a mutating call on a read-only file fails; it is never skipped silently
+    R7 = rep.rule("C11.R7", "no mutating member returns quietly because the file is read-only", floor=1,
+                  technique="paths of mutating members decided by a comparison with FileMode.ReadOnly: normal return without a write")
+    import ast as _ast
+    c7 = Ctx(M)
+    n7 = 0
+    ro_val = mode_values(M).get("ReadOnly")
+    from .common import surface, api_key, ENTITY_CLASSES
+    for cn, name, tb, f in surface(M, ENTITY_CLASSES, ("methods", "setters", "deleters")):
+        if name in ("__init__", "is_open", "close", "flush", "__exit__", "__enter__", "__del__"):
+            continue
+        if not any(isinstance(n_, _ast.Attribute) and n_.attr == "ReadOnly" for n_ in _ast.walk(f.node)):
+            continue
+        if not c7.cg.writes(f):
+            continue
+        n7 += 1
+        bad7 = None
+        for p in c7.paths(f, cn, max_paths=6000):
+            if not p.normal or any(c7.fx.is_write(e) for e in p.events):
+                continue
+            for a, v in p.decisions:
+                if a[0] == "eq" and v is True and (any(x == ("enum", "FileMode", "ReadOnly") for x in subterms(a)) or (
+                        any(x == ("const", ro_val) for x in a[1:3]) and
+                        any(x and x[0] == "attr" and x[2] in ("mode", "_mode") for s_ in a[1:3] for x in subterms(s_)))):
+                    bad7 = p
+        rep.check(R7, api_key(cn, name, tb), bad7 is None, "%s returns normally without writing when the file was opened read-only: the "
+                  "statement requires the call to fail" % api_key(cn, name, tb), site=f.file + ":%d" % f.node.lineno,
+                  detail=describe_path(bad7) if bad7 else None)
+    if not n7:
+        rep.ok(R7, "mutating members", "no mutating member consults the open mode")
+
     # ---------------- R5
     ctx = Ctx(M)
     cg = ctx.cg
